@@ -657,3 +657,42 @@ def spec_at(d, keys):
     else:
       d = None
   return d
+
+
+def loosen(d, mode=0):
+  """The same structure with numeric ranges (mode 0: both bounds, 1: only max, 2: only min) and
+  max sizes removed and modifiers dropped (a wider spec)."""
+  t = d['t']
+  out = {k: v for k, v in d.items() if k not in ('default', 'frozen')}
+  if t in ('int', 'float'):
+    if mode in (0, 2):
+      out['min'] = None
+    if mode in (0, 1):
+      out['max'] = None
+  elif t in ('list', 'vtuple'):
+    # min sizes are kept: is_compatible ignoring List.min_size is recorded under C04 (C04-K2)
+    out['max'] = None
+    out['elem'] = loosen(d['elem'], mode)
+  elif t == 'tuple':
+    out['elems'] = [loosen(e, mode) for e in d['elems']]
+  elif t in ('dict', 'object'):
+    out['fields'] = [[k, loosen(v, mode)] for k, v in d['fields']]
+    if t == 'dict' and d.get('dyn') is not None:
+      out['dyn'] = loosen(d['dyn'], mode)
+  elif t == 'union':
+    out['cands'] = [loosen(c, mode) for c in d['cands']]
+  return out
+
+
+def any_frozen(d):
+  if not isinstance(d, dict):
+    return False
+  if is_frozen(d):
+    return True
+  subs = []
+  if 'elem' in d:
+    subs.append(d['elem'])
+  subs += d.get('elems', []) + [f[1] for f in d.get('fields', [])] + d.get('cands', [])
+  if d.get('dyn'):
+    subs.append(d['dyn'])
+  return any(any_frozen(x) for x in subs)
